@@ -63,6 +63,22 @@ theorem revert_deletes_only_unedited_or_on_request (i : RevertIn) (h : revertFat
   cases cc <;> cases mm <;> cases bp <;> cases bi <;> cases tk <;> cases bk <;> cases wk <;> simp_all <;>
     (rename_i k; cases k <;> simp_all)
 
+/-- **scope of the revert clause (what the code does not keep)**: only regular files are ever kept
+or backed up.  A working-tree symlink or directory whose entry changed is handed to
+`tt.delete_contents` whatever the other inputs are - backups on, target absent, not in the basis:
+a retargeted symlink is not "content" for `_alter_files`.  (What is inside a directory is decided
+per file and by the conflict resolution of the transform, which the oracle observes.) -/
+theorem revert_nonfile_never_kept (fl : Flags) (i : RevertIn) (k : Kind) (hk : i.wtKind = some k) (hn : k ≠ .file)
+    (hc : i.changedContent = true) : revertFate fl i = .gone := by
+  obtain ⟨cc, wk, bk, tk, tv, mm, bp, bi⟩ := i
+  simp only at hk hc
+  subst hk hc
+  cases k <;> simp_all [revertFate, revertAction, keepContent]
+
+example : revertFate fixedFlags { changedContent := true, wtKind := some .symlink, backups := true, targetKind := some .file,
+                                  targetVersioned := true, mergeModifiedIsWt := false, basisPresent := true, basisIsWt := false } = .gone := by
+  decide
+
 /-! ### backup names -/
 
 /-- the loop only returns a name that does not exist -/
@@ -134,6 +150,147 @@ theorem backup_name_fresh (base : String) (taken : List String) :
 
 example : availableBackupName "f" ["f.~1~", "f.~2~", "f"] = some "f.~3~" := by decide +kernel
 
+/-! ### the backup action on a directory listing -/
+
+theorem names_renamed {β : Type} (d : Listing β) (name b : String) :
+    names (d.map (fun e => if e.1 = name then (b, e.2) else e)) = (names d).map (fun n => if n = name then b else n) := by
+  simp only [names, List.map_map]
+  apply List.map_congr_left
+  intro e _
+  by_cases h : e.1 = name <;> simp [h]
+
+/-- **the backup rename clobbers nothing and loses nothing**: if the directory has an entry `name`
+holding `c`, `renameToBackup` succeeds with a name `b` that no entry of the directory had (so no
+existing file - in particular no older `name.~k~` - is overwritten), `c` is stored under `b`
+afterwards, no entry is called `name` any more, every other entry is exactly as before, nothing
+new appears, the list of stored contents is unchanged, and distinct names stay distinct.  All
+listings, all names: no bound. -/
+theorem rename_to_backup_spec {β : Type} (d : Listing β) (name : String) (c : β) (h : (name, c) ∈ d) :
+    ∃ b d', renameToBackup d name = some (b, d') ∧ b ∉ names d ∧ b ≠ name ∧ (b, c) ∈ d' ∧ name ∉ names d' ∧
+      (∀ e ∈ d, e.1 ≠ name → e ∈ d') ∧ (∀ e ∈ d', e.1 ≠ b → e ∈ d) ∧ contents d' = contents d ∧
+      ((names d).Nodup → (names d').Nodup) := by
+  obtain ⟨b, hb, hfresh⟩ := backup_name_fresh name (names d)
+  have hname : name ∈ names d := List.mem_map.mpr ⟨(name, c), h, rfl⟩
+  have hne : b ≠ name := fun e => hfresh (e ▸ hname)
+  refine ⟨b, d.map (fun e => if e.1 = name then (b, e.2) else e), by simp [renameToBackup, hb], hfresh, hne, ?_, ?_, ?_, ?_, ?_, ?_⟩
+  · exact List.mem_map.mpr ⟨(name, c), h, by simp⟩
+  · rw [names_renamed]
+    intro hm
+    obtain ⟨n, _, hn⟩ := List.mem_map.mp hm
+    by_cases hnn : n = name
+    · exact hne (by simpa [hnn] using hn)
+    · exact hnn (by simpa [hnn] using hn)
+  · intro e he hen
+    exact List.mem_map.mpr ⟨e, he, by simp [hen]⟩
+  · intro e he heb
+    obtain ⟨e0, he0, hee⟩ := List.mem_map.mp he
+    by_cases h0 : e0.1 = name
+    · simp [h0] at hee; subst hee; exact absurd rfl heb
+    · simp [h0] at hee; subst hee; exact he0
+  · simp only [contents, List.map_map]
+    apply List.map_congr_left
+    intro e _
+    by_cases h0 : e.1 = name <;> simp [h0]
+  · intro hnd
+    rw [names_renamed]
+    rw [List.Nodup, List.pairwise_map]
+    apply List.Pairwise.imp_of_mem _ hnd
+    intro x y hx hy hxy
+    by_cases h1 : x = name <;> by_cases h2 : y = name
+    · subst h1 h2; exact absurd rfl hxy
+    · simp only [h1, h2, if_true, if_false]; intro e; exact hfresh (e ▸ hy)
+    · simp only [h1, h2, if_true, if_false]; intro e; exact hfresh (e ▸ hx)
+    · simpa [h1, h2] using hxy
+
+/-- **revert's backup-and-replace keeps the old bytes**: the old contents end up under a name that
+did not exist before, the new contents under the old name, every sibling (older numbered backups
+included) is untouched, and the contents stored in the directory afterwards are exactly the old
+ones plus the new one. -/
+theorem backup_and_replace_spec {β : Type} (d : Listing β) (name : String) (c new : β) (h : (name, c) ∈ d) :
+    ∃ b d', backupAndReplace d name new = some d' ∧ b ∉ names d ∧ (b, c) ∈ d' ∧ (name, new) ∈ d' ∧
+      (∀ e ∈ d, e.1 ≠ name → e ∈ d') ∧ contents d' = new :: contents d ∧
+      ((names d).Nodup → (names d').Nodup) := by
+  obtain ⟨b, d1, h1, h2, _, h4, h5, h6, _, h8, h9⟩ := rename_to_backup_spec d name c h
+  refine ⟨b, (name, new) :: d1, by simp [backupAndReplace, h1], h2, List.mem_cons_of_mem _ h4, List.mem_cons_self, ?_, ?_, ?_⟩
+  · intro e he hen; exact List.mem_cons_of_mem _ (h6 e he hen)
+  · simp [contents] at h8 ⊢; exact h8
+  · intro hnd
+    have := h9 hnd
+    simp only [names, List.map_cons, List.nodup_cons] at this ⊢
+    exact ⟨h5, this⟩
+
+example : backupAndReplace [("f", "old"), ("f.~1~", "older"), ("g", "x")] "f" "new"
+    = some [("f", "new"), ("f.~2~", "old"), ("f.~1~", "older"), ("g", "x")] := by decide +kernel
+
+/-- **revert keeps the user's bytes in the directory** (decision and backup action composed):
+for a user-edited working file `name` holding `c`, a revert with backups leaves `c` stored in the
+directory - under `name` or under a fresh backup name - and leaves every sibling entry as it was,
+whatever the other inputs of the decision are. -/
+theorem revert_dir_keeps_user_bytes {β : Type} (i : RevertIn) (d : Listing β) (name : String) (c new : β)
+    (hu : userEdited i = true) (hb : i.backups = true) (h : (name, c) ∈ d) :
+    ∃ d', revertDir fixedFlags i d name new = some d' ∧ c ∈ contents d' ∧ (∀ e ∈ d, e.1 ≠ name → e ∈ d') := by
+  have hf := revert_keeps_user_content i hu hb
+  unfold revertDir
+  unfold revertFate at hf
+  cases ha : revertAction fixedFlags i with
+  | nothing => exact ⟨d, rfl, List.mem_map.mpr ⟨(name, c), h, rfl⟩, fun e he _ => he⟩
+  | keepInPlace => exact ⟨d, rfl, List.mem_map.mpr ⟨(name, c), h, rfl⟩, fun e he _ => he⟩
+  | deleteContents => simp [ha] at hf
+  | backupAndReplace =>
+    obtain ⟨b, d', h1, _, h3, _, h5, _, _⟩ := backup_and_replace_spec d name c new h
+    exact ⟨d', h1, List.mem_map.mpr ⟨(b, c), h3, rfl⟩, h5⟩
+
+def editedIn : RevertIn :=
+  { changedContent := true, wtKind := some .file, backups := true, targetKind := some .file,
+    targetVersioned := true, mergeModifiedIsWt := false, basisPresent := true, basisIsWt := false }
+
+example : userEdited editedIn = true ∧
+    revertDir fixedFlags editedIn [("f", "edited"), ("f.~1~", "older")] "f" "target"
+      = some [("f", "target"), ("f.~2~", "edited"), ("f.~1~", "older")] := by
+  decide +kernel
+
+/-- what revert deletes from a directory is only the entry it was asked about, and only when the
+decision says so: siblings are never touched, by any action, for any flags -/
+theorem revert_dir_siblings_untouched {β : Type} (fl : Flags) (i : RevertIn) (d d' : Listing β) (name : String) (new : β)
+    (h : revertDir fl i d name new = some d') : ∀ e ∈ d, e.1 ≠ name → e ∈ d' := by
+  intro e he hen
+  unfold revertDir at h
+  cases ha : revertAction fl i <;> simp only [ha] at h
+  · cases h; exact he
+  · cases h
+    have : e ∈ d.filter (fun e => e.1 ≠ name) := List.mem_filter.mpr ⟨he, by simpa using hen⟩
+    split
+    · exact List.mem_cons_of_mem _ this
+    · exact this
+  · unfold backupAndReplace renameToBackup at h
+    cases hb : availableBackupName name (names d) with
+    | none => simp [hb] at h
+    | some b =>
+      simp [hb] at h
+      subst h
+      exact List.mem_cons_of_mem _ (List.mem_map.mpr ⟨e, he, by simp [hen]⟩)
+  · cases h; exact he
+
+/-- **remove keeps the bytes of unsafe files in the directory**: without `force`, a selected file that
+is unknown / newly added or changed is still stored in its directory afterwards (in place with
+`keep`, else under a fresh backup name), and no sibling is touched. -/
+theorem remove_dir_keeps_unsafe_bytes {β : Type} (i : RemoveIn) (d : Listing β) (name : String) (c : β)
+    (hf : i.force = false) (hu : i.inBasis = false ∨ i.changedContent = true) (h : (name, c) ∈ d) :
+    ∃ d', removeDir i d name = some d' ∧ c ∈ contents d' ∧ (∀ e ∈ d, e.1 ≠ name → e ∈ d') := by
+  unfold removeDir
+  by_cases hk : i.keep = true
+  · exact ⟨d, by simp [hk], List.mem_map.mpr ⟨(name, c), h, rfl⟩, fun e he _ => he⟩
+  · have htb : toBackup i = true := by
+      obtain ⟨k, f, r, wv, ib, ch⟩ := i
+      simp only [toBackup] at *
+      subst hf
+      cases k <;> cases ib <;> cases ch <;> simp_all
+    obtain ⟨b, d', h1, _, _, h4, _, h6, _, _, _⟩ := rename_to_backup_spec d name c h
+    exact ⟨d', by simp [hk, htb, h1], List.mem_map.mpr ⟨(b, c), h4, rfl⟩, h6⟩
+
+example : removeDir { keep := false, force := false, role := .selected, wtVersioned := false, inBasis := false, changedContent := false }
+    [("u", "unknown"), ("u.~1~", "x")] "u" = some [("u.~2~", "unknown"), ("u.~1~", "x")] := by decide +kernel
+
 /-! ### remove -/
 
 /-- **remove is safe**: without `force`, a file that is unknown / newly added (not in
@@ -141,23 +298,54 @@ the basis), or whose content differs from the basis, is never deleted — it is 
 or renamed to a numbered backup; with `keep_files` nothing is touched. -/
 theorem remove_safe (i : RemoveIn) (hf : i.force = false) (hu : i.inBasis = false ∨ i.changedContent = true) :
     removeFate i ≠ .gone := by
-  obtain ⟨k, f, r, ib, ch⟩ := i
-  simp only [removeFate, toBackup] at *
+  obtain ⟨k, f, r, wv, ib, ch⟩ := i
+  simp only [removeFate, removeFateV, toBackup] at *
   subst hf
   cases k <;> cases r <;> cases ib <;> cases ch <;> simp_all
 
 theorem remove_keep (i : RemoveIn) (hk : i.keep = true) : removeFate i = .kept := by
-  simp [removeFate, hk]
+  simp [removeFate, removeFateV, hk]
 
-example : removeFate { keep := false, force := false, role := .selected, inBasis := false, changedContent := false } = .backup := by decide
+example : removeFate { keep := false, force := false, role := .selected, wtVersioned := false, inBasis := false, changedContent := false } = .backup := by decide
 
 /-- what `remove` deletes without `force` is in the basis and unchanged -/
 theorem remove_deletes_only_clean (i : RemoveIn) (hf : i.force = false) (h : removeFate i = .gone) :
     i.inBasis = true ∧ i.changedContent = false ∧ i.role = .selected := by
-  obtain ⟨k, f, r, ib, ch⟩ := i
-  simp only [removeFate, toBackup] at *
+  obtain ⟨k, f, r, wv, ib, ch⟩ := i
+  simp only [removeFate, removeFateV, toBackup] at *
   subst hf
   cases k <;> cases r <;> cases ib <;> cases ch <;> simp_all
+
+/-- **witness (finding, bzr trees)**: the safety of `remove` rests on the attributes `iter_changes`
+reports.  For an unknown file at a path that is removed in the working tree but still in the basis
+(`brz rm f; echo new > f; brz rm f`) no record names the working path, so `remove` reads it as
+"in the basis, unchanged" - and for these inputs the decision is to delete: the unknown file is
+lost without `--force` (reproduced on the real command by the oracle, family
+`bzr-remove-deletes-unknown-file-at-removed-path`).  `remove_safe` does not apply: its hypothesis is
+about the attributes the code reads, and they misdescribe this state. -/
+theorem remove_trusts_reported_attributes_witness :
+    removeFate { keep := false, force := false, role := .selected, wtVersioned := false, inBasis := true, changedContent := false } = .gone ∧
+    removeFate { keep := false, force := false, role := .selected, wtVersioned := false, inBasis := false, changedContent := false } = .backup := by
+  decide
+
+/-- **remove never deletes an unversioned file without force (variant with the guard in the deletion
+step)**: whatever the `iter_changes` records say - in particular when no record names the path -
+a selected path that is not versioned in the working tree is kept or backed up. -/
+theorem remove_never_deletes_unversioned_fixed (i : RemoveIn) (hf : i.force = false) (hv : i.wtVersioned = false) :
+    removeFateV { backupUnversioned := true } i ≠ .gone := by
+  obtain ⟨k, f, r, wv, ib, ch⟩ := i
+  simp only [removeFateV, toBackup] at *
+  subst hf hv
+  cases k <;> cases r <;> cases ib <;> cases ch <;> simp_all
+
+/-- for paths that are versioned in the working tree the two variants decide alike -/
+theorem remove_variants_agree_on_versioned (fl : RemoveFlags) (i : RemoveIn) (hv : i.wtVersioned = true) :
+    removeFateV fl i = removeFate i := by
+  obtain ⟨k, f, r, wv, ib, ch⟩ := i
+  obtain ⟨b⟩ := fl
+  simp only [removeFate, removeFateV] at *
+  subst hv
+  cases b <;> simp
 
 /-! ### merge -/
 
@@ -211,10 +399,5 @@ theorem merge_written_then_revert_may_discard :
     revertFate fixedFlags (afterMerge { otherChangedContent := true, otherAdded := false, onlyMoved := false } false
       { changedContent := true, wtKind := some .file, backups := true, targetKind := some .file, targetVersioned := true,
         mergeModifiedIsWt := false, basisPresent := true, basisIsWt := false }) = .gone := by decide
-
-/-! ### uncommit -/
-
-/-- **uncommit is pure** with respect to working tree files -/
-theorem uncommit_pure (s : WState) (r : Nat) : (uncommit s r).files = s.files := rfl
 
 end BreezyVerif.C12
